@@ -1,17 +1,84 @@
 import NanoVerif.Proofs.Parameter
+import NanoVerif.Proofs.ParameterExt
+import NanoVerif.Proofs.ParameterReads
 import NanoVerif.Gen.FactoryParams
 /-!
   C19 — property theorems: parameters stay inside their declared domain; what the factories hand out.
 
   The theorems are stated over
     * `Gen/ParamCheck.lean` (`check`, `updateEnum`, `updateRange`, `updatePair`: regenerated from the text of
-      src/parameter.cpp on every run) through `Model/Parameter.lean` (`step`, `make`) and `Model/Configurable.lean`;
+      src/parameter.cpp on every run) through `Model/Parameter.lean` (`step`, `make`), `Model/ParamNarrow.lean` (`xstep`,
+      `xmake`: the rest of the interface), `Model/Configurable.lean`, `Model/Factory.lean`;
     * `Gen/FactoryParams.lean` (every registered parameter of every id of the 11 factories, regenerated from a
-      run of the implementation).
+      run of the implementation) and `Gen/ParamReads.lean` (every typed read of a parameter in the sources).
   The *declared domain* (`Range.InDomain`, `PRange.InDomain`, `EnumP.InDomain`, `Storage.InDomain`) is written
   independently in `Model/ParamTypes.lean`. `α` (the scalar type) is arbitrary: the comparisons, `isfinite`, the
   int64 ↔ scalar conversions and `std::stod` are parameters, so the theorems hold in particular for IEEE doubles
   (`XF`) with NaN, ±∞ and signed zeros, and for whatever `static_cast<int64_t>` does to values outside its range.
+
+  GAP TABLE (gap-closing round) — every function of the anchored files:
+  `modelled` = hand-written Lean definition tied by the correspondence run, `translated` = regenerated into Gen/,
+  `static` = checked by `static_checks()` of tools/props/c19.py on every run, `outside` = not in the model (why).
+
+  src/parameter.cpp
+    name(LEorLT)                          outside    text of messages and of `domain()` only (see `operator<<` below)
+    check(LEorLT, a, b)                   translated Gen.ParamCheck.check            (check_sound)
+    split_pair                            modelled   splitPair (Model/ParamParse.lean)
+    update(name, enum_t&, value)          translated Gen.ParamCheck.updateEnum       (updateEnum_accepts_iff, rejected_is_noop_enum)
+    update(name, range_t&, value)         translated Gen.ParamCheck.updateRange      (updateRange_accepts_iff)
+    update(name, pair_range_t&, v1, v2)   translated Gen.ParamCheck.updatePair       (updatePair_accepts_iff)
+    update(name, storage_t&, tvalue)      modelled   setInt / setFloat
+    update(name, storage_t&, tuple)       modelled   setPairInt / setPairFloat
+    make_comp / make_flag                 modelled   Cmp.flag (operator==); the stream side is C15's codec
+    read(range) / read(pair) / write(…)   outside    byte codec = C15 (`Op.writeRead` is the identity + operator== + eof, checked)
+    operator==(enum / range / pair / tparam vs storage)   modelled   Range.eqv, PRange.eqv, Storage.eqv   (param_eq_self)
+    value(stream, …) / domain(stream, …)  outside    diagnostic text (`%g`-style formatting of doubles); the property does not
+                                                     mention it; monitored at run time by the oracle-only family `paramshow`
+    parameter_t::parameter_t() / (name, enum_t) / (name, string_t) / (name, irange_t) / (name, frange_t) /
+      (name, iprange_t) / (name, fprange_t)                 modelled   make            (construct_in_domain)
+    seti / setd                           modelled   Op.setInt / Op.setFloat
+    operator=(string_t)                   modelled   setString with stoll / stodXF / splitPair
+    operator=(tuple<int32,int32> / <int64,int64> / <scalar,scalar>)   modelled   Op.setPairInt / Op.setPairFloat (`sp32`, `spi`, `spf`)
+    parameter_t::read / write             outside    C15 (see above)
+    logical_error                         modelled   `.throw .critical`               (mismatched_read_throws, narrow_read_mismatch_throws)
+    operator== / operator!=(parameter_t)  modelled   paramEq (names + Storage.eqv); `!=` checked against `==` in the harness
+    operator<<(parameter_t / value_t / domain_t)   outside   as value(stream)/domain(stream)
+  include/nano/parameter.h
+    range_t::value<T>() / pair_range_t::value<T>()          modelled   the read operations of `step` and `xstep` (T = int64_t,
+                                                     scalar_t, int32_t, uint64_t, float)      (readI32_exact, readU64_exact)
+    make_enum / make_enum_                modelled   Spec.enum (one enumeration declared in the harness)
+    make_string                           modelled   Spec.str
+    make_scalar / make_integer / make_scalar_pair / make_integer_pair / make_scalar_ (both)
+                                          modelled   XSpec + XSpec.lower (arguments converted first)   (xconstruct_in_domain)
+    operator=(tscalar)                    modelled   XOp.setI32 / setU64 / setBool / setF32 + Op.setInt / Op.setFloat   (xstep_lowers)
+    operator=(tenum)                      modelled   Op.setEnum                        (enum_out_of_domain_rejected)
+    value<string_t> / value<tenum> / value<tscalar> / value_pair<tscalar>   modelled   Op.read*, XOp.read*
+    name() / storage()                    (observation points of the harness)
+    value() / domain()                    outside    wrappers for operator<<
+  src/configurable.cpp, include/nano/configurable.h
+    find_param (both overloads)           modelled   Config.find?                      (lookup_exact_name)
+    register_parameter                    modelled   Config.register                   (duplicate_register_throws, register_then_found)
+    parameter(name) (both) / parameter_if(name) (both)      modelled   Config.applyAt / Config.has; the const overloads are compared
+                                                     with the non-const ones on every call of the harness
+    config(name, value, …)                modelled   Config.applyAt with an assignment
+    copy / move construction and assignment (defaulted)     modelled   identity (`copy` operation of the `config` family)
+    read / write                          outside    C15
+    major/minor/patch_version             outside    C15
+  include/nano/factory.h
+    add / has / get / ids(regex) / size / description / find   modelled   Model/Factory.lean   (factory_add_spec, factory_get_unknown,
+                                                     factory_get_is_clone, factory_ids_spec, factory_prototypes_untouched)
+  src/{solver,lsearchk,lsearch0,loss,splitter,tuner,generator,wlearner,linear,datasource,function}.cpp
+    T::all() (the registrations) and the constructors registering parameters   translated   Gen/FactoryParams.lean (dump of a run)
+                                                     (defaults_in_domain, defaults_constructible, type_ids_match)
+    every `parameter("…").value<T>()` of src/ and include/   translated   Gen/ParamReads.lean   (library_reads_well_typed)
+    T::clone() of the 105 classes implementing it            static     canonical `std::make_unique<T>(*this)`, or reviewed
+    user-provided copy operations (solver_t, ml::params_t, gboost_model_t, gboost::result_t, functional_t, logger_t, …)
+                                          static     reviewed allow-list + "every data member and base is copied"
+                                          modelled   Tree.clone / setChild / ostep     (clone_configuration_equal, clone_independent)
+    solver_t::lsearch0/lsearchk setters, params_t setters, gboost_model_t::prototypes   modelled   OOp.inst / instid / protos
+    what the objects DO (minimize, get, fit, split, optimize, …)   outside   other properties; here only probed: original vs clone
+                                                     bit-identical on fixed inputs (loss, function, splitter, solver, lsearch0,
+                                                     lsearchk, tuner, weak learner incl. clone-after-fit, generator)
 -/
 namespace NanoVerif.Param
 open NanoVerif.Gen.ParamCheck NanoVerif.Gen
@@ -311,6 +378,365 @@ theorem type_ids_match :
     (∀ ch ∈ FactoryParams.chunks, (ch.map (·.id)).Nodup) := by
   decide +kernel
 
+
+/-! ## gap-closing round: the rest of the interface -/
+
+section
+variable {α : Type} [LT α] [LE α] [DecidableLT α] [DecidableLE α] [FOps α]
+
+/-! ### `rejected_is_noop`, kind by kind (a change of ONE of the regenerated `update` functions breaks the theorem of
+    that kind) -/
+
+/-- enumeration: whatever is tried on it and thrown — a string that is not a name of the enumeration, a number, a pair,
+    a mismatched read — the stored name and the domain are exactly what they were -/
+theorem rejected_is_noop_enum (p : EnumP) (op : Op α) (h : (step (Storage.enum p : Storage α) op).2.isThrow = true) :
+    (step (Storage.enum p : Storage α) op).1 = .enum p := rejected_is_noop _ op h
+
+/-- a string that is not a name of the enumeration is rejected by both ways of assigning it (`operator=(string_t)`,
+    `operator=(tenum)` goes through the same function) and nothing is stored -/
+theorem enum_out_of_domain_rejected (p : EnumP) (v : String) (hv : v ∉ p.domain) :
+    step (Storage.enum p : Storage α) (.setString v) = (.enum p, .throw .critical) ∧
+    step (Storage.enum p : Storage α) (.setEnum v) = (.enum p, .throw .critical) := by
+  have h2 : (updateEnum p v).2 = true := by
+    cases h : (updateEnum p v).2 with
+    | true => rfl
+    | false => exact absurd ((updateEnum_iff p v).1 h) hv
+  have h1 := updateEnum_reject p v h2
+  constructor <;> simp [step, setEnum, setString, ofUpd, h1, h2]
+
+theorem rejected_is_noop_integer (p : Range Int) (op : Op α)
+    (h : (step (Storage.irange p : Storage α) op).2.isThrow = true) :
+    (step (Storage.irange p : Storage α) op).1 = .irange p := rejected_is_noop _ op h
+
+theorem rejected_is_noop_scalar (p : Range α) (op : Op α) (h : (step (Storage.frange p) op).2.isThrow = true) :
+    (step (Storage.frange p) op).1 = .frange p := rejected_is_noop _ op h
+
+theorem rejected_is_noop_integer_pair (p : PRange Int) (op : Op α)
+    (h : (step (Storage.iprange p : Storage α) op).2.isThrow = true) :
+    (step (Storage.iprange p : Storage α) op).1 = .iprange p := rejected_is_noop _ op h
+
+theorem rejected_is_noop_scalar_pair (p : PRange α) (op : Op α) (h : (step (Storage.fprange p) op).2.isThrow = true) :
+    (step (Storage.fprange p) op).1 = .fprange p := rejected_is_noop _ op h
+
+theorem rejected_is_noop_string (v : String) (op : Op α) (h : (step (Storage.str v : Storage α) op).2.isThrow = true) :
+    (step (Storage.str v : Storage α) op).1 = .str v := rejected_is_noop _ op h
+
+/-- an enumeration stays an enumeration over the same names, holding one of them, along ANY history — so every later
+    read, write or copy sees a name of the enumeration -/
+theorem enum_history_in_domain (p : EnumP) (hp : p.InDomain) (ops : List (Op α)) :
+    ∃ q : EnumP, run (Storage.enum p : Storage α) ops = .enum q ∧ q.domain = p.domain ∧ q.value ∈ p.domain := by
+  induction ops generalizing p with
+  | nil => exact ⟨p, rfl, rfl, hp⟩
+  | cons op ops ih =>
+    have key : ∃ q : EnumP, (step (Storage.enum p : Storage α) op).1 = .enum q ∧ q.domain = p.domain ∧ q.InDomain := by
+      have upd : ∀ v : String, (updateEnum p v).1.domain = p.domain ∧ (updateEnum p v).1.InDomain := by
+        intro v
+        cases h : (updateEnum p v).2 with
+        | false =>
+          rw [(updateEnum_accept p v h).1]; exact ⟨rfl, (updateEnum_accept p v h).2⟩
+        | true => rw [updateEnum_reject p v h]; exact ⟨rfl, hp⟩
+      cases op with
+      | setString v => exact ⟨(updateEnum p v).1, rfl, (upd v).1, (upd v).2⟩
+      | setEnum v => exact ⟨(updateEnum p v).1, rfl, (upd v).1, (upd v).2⟩
+      | _ => exact ⟨p, rfl, rfl, hp⟩
+    obtain ⟨q, hq, hqd, hqi⟩ := key
+    obtain ⟨r, hr, hrd, hrv⟩ := ih q hqi
+    refine ⟨r, ?_, hrd.trans hqd, hqd ▸ hrv⟩
+    simp only [run, hq, hr]
+
+/-! ### every arithmetic overload of `operator=`, the narrowing reads, the converting constructors -/
+
+variable [FNarrow α]
+
+/-- every overload of `operator=(tscalar)` is one of the two assignments of the basic alphabet applied to the converted
+    argument; every other extended operation leaves the parameter alone -/
+theorem xstep_lowers (s : Storage α) (x : XOp α) :
+    (∀ op, x.lower = some op → (xstep s x).1 = (step s op).1 ∧ (xstep s x).2 = .res (step s op).2) ∧
+    (x.lower = none → (xstep s x).1 = s) := by
+  constructor
+  · intro op h
+    cases x <;> simp only [XOp.lower, Option.some.injEq, reduceCtorEq] at h <;> subst h <;> exact ⟨rfl, rfl⟩
+  · intro h
+    cases x with
+    | eqWith b spec => simp only [xstep]; split <;> rfl
+    | readI32 => cases s <;> rfl
+    | readU64 => cases s <;> rfl
+    | readF32 => cases s <;> rfl
+    | readPairI32 => cases s <;> rfl
+    | readPairF32 => cases s <;> rfl
+    | _ => simp [XOp.lower] at h
+
+/-- the stored value stays inside the declared domain under every operation of the whole interface -/
+theorem xstep_preserves_domain (s : Storage α) (x : XOp α) (h : s.InDomain) : (xstep s x).1.InDomain := by
+  cases hl : x.lower with
+  | some op => rw [((xstep_lowers s x).1 op hl).1]; exact step_preserves_domain s op h
+  | none => rw [(xstep_lowers s x).2 hl]; exact h
+
+/-- … and an operation of the whole interface that throws leaves it as it was -/
+theorem xrejected_is_noop (s : Storage α) (x : XOp α) (h : (xstep s x).2.isThrow = true) : (xstep s x).1 = s := by
+  cases hl : x.lower with
+  | some op =>
+    have := (xstep_lowers s x).1 op hl
+    rw [this.1]
+    apply rejected_is_noop
+    rw [this.2] at h
+    exact h
+  | none => exact (xstep_lowers s x).2 hl
+
+/-- the converting factory functions: whatever arithmetic types the bounds and the default are given in, a parameter
+    that is constructed is inside its domain — the domain being the CONVERTED bounds -/
+theorem xconstruct_in_domain (spec : XSpec α) (s : Storage α) (h : xmake spec = .ok s) : s.InDomain :=
+  construct_in_domain spec.lower s h
+
+theorem xreachable_in_domain (spec : XSpec α) (s0 : Storage α) (h : xmake spec = .ok s0) (ops : List (XOp α)) :
+    (xrun s0 ops).InDomain := by
+  have h0 := xconstruct_in_domain spec s0 h
+  clear h
+  induction ops generalizing s0 with
+  | nil => exact h0
+  | cons op ops ih => exact ih (xstep s0 op).1 (xstep_preserves_domain s0 op h0)
+
+/-- `value<int32_t>()` of an integer parameter returns the stored value iff it fits: exact on [-2^31, 2^31), and always
+    the value modulo 2^32 (no throw, no saturation) -/
+theorem readI32_exact (p : Range Int) :
+    (-twoP31 ≤ p.value ∧ p.value < twoP31 →
+      xstep (Storage.irange p : Storage α) .readI32 = (.irange p, .res (.int p.value))) ∧
+    (∃ v, xstep (Storage.irange p : Storage α) .readI32 = (.irange p, .res (.int v)) ∧
+      -twoP31 ≤ v ∧ v < twoP31 ∧ (v - p.value) % twoP32 = 0) := by
+  constructor
+  · intro h; simp only [xstep, wrapI32_id p.value h]
+  · refine ⟨wrapI32 p.value, rfl, (wrapI32_range _).1, (wrapI32_range _).2, ?_⟩
+    unfold wrapI32 twoP32 twoP31
+    simp only
+    split <;> omega
+
+/-- … in particular for every value of a declared domain inside [-2^31, 2^31) -/
+theorem readI32_exact_of_domain (p : Range Int) (hd : p.InDomain) (hmin : -twoP31 ≤ p.min) (hmax : p.max < twoP31) :
+    xstep (Storage.irange p : Storage α) .readI32 = (.irange p, .res (.int p.value)) := by
+  apply (readI32_exact p).1
+  obtain ⟨_, h1, h2⟩ := hd
+  have a : p.min ≤ p.value := by cases hc : p.mincomp <;> rw [hc] at h1 <;> simp only [Cmp.Rel] at h1 <;> omega
+  have b : p.value ≤ p.max := by cases hc : p.maxcomp <;> rw [hc] at h2 <;> simp only [Cmp.Rel] at h2 <;> omega
+  omega
+
+/-- `value<uint64_t>()` / `value<size_t>()` of an integer parameter: exact for a non-negative `int64_t` -/
+theorem readU64_exact (p : Range Int) (h : 0 ≤ p.value ∧ p.value < XF.twoP63) :
+    xstep (Storage.irange p : Storage α) .readU64 = (.irange p, .res (.int p.value)) := by
+  have : wrapU64 p.value = p.value := wrapU64_id _ ⟨h.1, by unfold XF.twoP63 at h; unfold twoP64; omega⟩
+  simp only [xstep, this]
+
+/-- the narrowing reads of the other kinds throw `logical_error` like the full-width ones -/
+theorem narrow_read_mismatch_throws (s : Storage α) :
+    (match s with | .irange _ | .frange _ => True | _ => (xstep s .readI32).2 = .res (.throw .critical) ∧
+      (xstep s .readU64).2 = .res (.throw .critical) ∧ (xstep s .readF32).2 = .res (.throw .critical)) ∧
+    (match s with | .iprange _ | .fprange _ => True | _ => (xstep s .readPairI32).2 = .res (.throw .critical) ∧
+      (xstep s .readPairF32).2 = .res (.throw .critical)) := by
+  cases s <;> exact ⟨by first | trivial | exact ⟨rfl, rfl, rfl⟩, by first | trivial | exact ⟨rfl, rfl⟩⟩
+
+end
+
+/-! ### the typed reads of the library (tables regenerated on every run) -/
+
+/-- what `fitsRead` promises for `value<int>()`: exact on every value of the declared domain -/
+theorem fitsRead_i32_sound (q : Range Int) (h : fitsRead false .i32 (.irange q) = true) (hd : q.InDomain) :
+    xstep (Storage.irange q : Storage XF) .readI32 = (.irange q, .res (.int q.value)) := by
+  simp only [fitsRead, Bool.not_false, Bool.true_and, decide_eq_true_eq] at h
+  exact readI32_exact_of_domain q hd h.1 h.2
+
+/-- what `fitsRead` promises for `value<uint64_t>()` / `value<size_t>()` (the stored value being an `int64_t`) -/
+theorem fitsRead_u64_sound (q : Range Int) (h : fitsRead false .u64 (.irange q) = true) (hd : q.InDomain)
+    (h64 : q.value < XF.twoP63) :
+    xstep (Storage.irange q : Storage XF) .readU64 = (.irange q, .res (.int q.value)) := by
+  simp only [fitsRead, Bool.not_false, Bool.true_and, decide_eq_true_eq] at h
+  apply readU64_exact q
+  obtain ⟨_, h1, _⟩ := hd
+  have a : q.min ≤ q.value := by cases hc : q.mincomp <;> rw [hc] at h1 <;> simp only [Cmp.Rel] at h1 <;> omega
+  exact ⟨by omega, h64⟩
+
+/-- **library_reads_well_typed**: every typed read `parameter("name").value<T>()` / `.value_pair<T>()` in the sources of
+    the library, against every parameter of that name registered by an object of the factories or by `ml::params_t` /
+    `gboost_model_t`: the read is of the parameter's kind (it cannot throw `logical_error`) and narrowing reads
+    (`int`, `size_t`, `uint64_t`, integer as `scalar_t`) are exact on the whole declared domain. -/
+theorem library_reads_well_typed :
+    (∀ r ∈ ParamReads.reads, r.kind = RKind.ofType r.ty) ∧
+    (∀ r ∈ ParamReads.reads, ∀ p ∈ allParams, p.1 = r.name → fitsRead r.pair r.kind p.2 = true) :=
+  ⟨reads_kinds_checked, reads_fit_table⟩
+
+/-! ### `operator==` and copies -/
+
+/-- a parameter that is inside its domain equals itself under `operator==` (bounds and value are not NaN), and
+    `operator==` needs equal names -/
+theorem param_eq_self (n : String) (s : Storage XF) (h : s.InDomain) :
+    paramEq n s n s = true ∧ ∀ m, m ≠ n → paramEq n s m s = false := by
+  constructor
+  · simp only [paramEq, beq_self_eq_true, Bool.true_and]
+    cases s with
+    | mono => rfl
+    | str v => simp [Storage.eqv]
+    | enum p => simp [Storage.eqv]
+    | irange p => simp [Storage.eqv, Range.eqv]
+    | iprange p => simp [Storage.eqv, PRange.eqv]
+    | frange p =>
+      obtain ⟨_, h1, h2⟩ := h
+      have a := XF.eqNum_self_of_rel_left _ _ _ h1
+      have b := XF.eqNum_self_of_rel_right _ _ _ h1
+      have c := XF.eqNum_self_of_rel_right _ _ _ h2
+      simp [Storage.eqv, Range.eqv, FNarrow.eqNum, a, b, c]
+    | fprange p =>
+      obtain ⟨_, _, h1, h2, h3⟩ := h
+      have a := XF.eqNum_self_of_rel_left _ _ _ h1
+      have b := XF.eqNum_self_of_rel_right _ _ _ h1
+      have c := XF.eqNum_self_of_rel_right _ _ _ h2
+      have d := XF.eqNum_self_of_rel_right _ _ _ h3
+      simp [Storage.eqv, PRange.eqv, FNarrow.eqNum, a, b, c, d]
+  · intro m hm
+    have : (n == m) = false := by simpa using (Ne.symm hm)
+    simp [paramEq, this]
+
+/-- **clone_configuration_equal**: a clone (copy construction, what a setter stores, what `factory.get` hands out) has
+    the type id, the parameters and — recursively — the owned objects of its source -/
+theorem clone_configuration_equal {α : Type} (t : Tree α) : t.clone = t := Tree.clone_eq t
+
+section
+variable {α : Type} [LT α] [LE α] [DecidableLT α] [DecidableLE α] [FOps α]
+
+/-- **clone_independent**: along any history over variables (clone, install, extract, assign, parameter assignments,
+    probes) a variable changes only by operations applied to IT: a clone and its source never influence each other -/
+theorem clone_independent (lookup : String → String → Option (Tree α)) (ops : List (OOp α)) (env : Env α) (i : Nat)
+    (hi : i < env.length) (h : ∀ op ∈ ops, op.target ≠ some i) : (orun lookup env ops)[i]? = env[i]? :=
+  orun_frame lookup ops env i hi h
+
+/-! ### configurable objects: exact names -/
+
+/-- **lookup_exact_name**: the lookup of `n` succeeds iff some registered parameter is named exactly `n` (a prefix or an
+    extension of a registered name is unknown), and registering `n` is rejected iff `n` is registered already -/
+theorem lookup_exact_name (c : Config α) (n : String) :
+    (c.has n = true ↔ n ∈ c.names) ∧
+    ((∃ s, c.find? n = some s) ↔ ∃ p ∈ c.params, p.1 = n) ∧
+    (∀ op, n ∉ c.names → c.applyAt n op = (c, .throw .critical)) ∧
+    (∀ s, (c.register n s).2 = true ↔ n ∈ c.names) := by
+  refine ⟨Config.has_iff_mem c n, ?_, ?_, ?_⟩
+  · constructor
+    · rintro ⟨s, hs⟩
+      have : n ∈ c.names := by
+        refine Classical.byContradiction (fun hn => ?_)
+        rw [find?_none_of_not_mem c n hn] at hs; cases hs
+      simpa [Config.names] using this
+    · rintro ⟨p, hp, hpn⟩
+      exact find?_some_of_mem c n (by simp only [Config.names, List.mem_map]; exact ⟨p, hp, hpn⟩)
+  · intro op hn
+    exact (unknown_name_throws c n op hn).1
+  · intro s
+    unfold Config.register
+    constructor
+    · intro h
+      by_cases hh : c.has n = true
+      · exact (Config.has_iff_mem c n).1 hh
+      · simp [hh] at h
+    · intro h
+      simp [(Config.has_iff_mem c n).2 h]
+
+end
+
+/-! ### the factory -/
+
+section
+variable {α : Type}
+
+/-- **factory_add_spec**: `add` of an object whose id is registered already returns `false` and changes nothing; otherwise
+    it returns `true`, the object is appended under the id it reports and is found afterwards with its description -/
+theorem factory_add_spec (f : Factory α) (obj : Tree α) (d : String) :
+    (obj.typeId ∈ f.allIds → f.add obj d = (f, false)) ∧
+    (obj.typeId ∉ f.allIds → (f.add obj d).2 = true ∧ (f.add obj d).1.allIds = f.allIds ++ [obj.typeId] ∧
+      (f.add obj d).1.get obj.typeId = some obj ∧ (f.add obj d).1.description obj.typeId = d ∧
+      (f.add obj d).1.has obj.typeId = true) := by
+  constructor
+  · intro h; simp [Factory.add, (Factory.has_iff_mem f _).2 h]
+  · intro h
+    have hfn : f.find? obj.typeId = none := (Factory.find?_none_iff f _).2 h
+    have hf : (Factory.mk (f.protos ++ [⟨obj.typeId, obj, d⟩])).find? obj.typeId = some ⟨obj.typeId, obj, d⟩ :=
+      Factory.find?_append_new f ⟨obj.typeId, obj, d⟩ hfn
+    simp [Factory.add, Factory.has, hfn, Factory.get, Factory.description, hf, Factory.allIds, Tree.clone_eq]
+
+/-- **factory_get_unknown**: an id that was never registered: `get` returns null, `has` is false, the description is empty -/
+theorem factory_get_unknown (f : Factory α) (id : String) (h : id ∉ f.allIds) :
+    f.get id = none ∧ f.has id = false ∧ f.description id = "" := by
+  have := (Factory.find?_none_iff f id).2 h
+  simp [Factory.get, Factory.has, Factory.description, this]
+
+/-- the invariant "every prototype is filed under the id it reports, no id twice" holds for every factory built by `add` -/
+theorem factory_wf_preserved (f : Factory α) (obj : Tree α) (d : String) (h : f.WF ∧ f.allIds.Nodup) :
+    (f.add obj d).1.WF ∧ (f.add obj d).1.allIds.Nodup := by
+  unfold Factory.add
+  cases hc : f.has obj.typeId with
+  | true => simpa using h
+  | false =>
+    have hn : obj.typeId ∉ f.allIds := fun hm => by
+      rw [(Factory.has_iff_mem f _).2 hm] at hc; cases hc
+    simp only [Bool.false_eq_true, if_false]
+    constructor
+    · intro p hp
+      rcases List.mem_append.1 hp with hp | hp
+      · exact h.1 p hp
+      · rw [List.mem_singleton.1 hp]
+    · simp only [Factory.allIds, List.map_append, List.map_cons, List.map_nil]
+      exact List.nodup_append.2 ⟨h.2, (by simp), by
+        intro a ha b hb; rw [List.mem_singleton.1 hb]; intro hab; exact hn (hab ▸ ha)⟩
+
+/-- **factory_get_is_clone**: what `get(id)` hands out is a clone of the prototype registered under `id`: it reports `id`
+    and has the prototype's configuration -/
+theorem factory_get_is_clone (f : Factory α) (hwf : f.WF) (id : String) (t : Tree α) (h : f.get id = some t) :
+    t.typeId = id ∧ ∃ p ∈ f.protos, p.id = id ∧ t = p.obj := by
+  unfold Factory.get at h
+  cases hf : f.find? id with
+  | none => rw [hf] at h; cases h
+  | some p =>
+    rw [hf] at h
+    simp only [Option.map_some, Option.some.injEq] at h
+    obtain ⟨hp, hid⟩ := Factory.find?_some_spec f id p hf
+    rw [Tree.clone_eq] at h
+    exact ⟨by rw [← h, ← hwf p hp, hid], p, hp, hid, h.symm⟩
+
+/-- **factory_ids_spec**: `ids(regex)` lists exactly the registered ids the regular expression matches, in registration order -/
+theorem factory_ids_spec (f : Factory α) (pat : Pat) :
+    (∀ i, i ∈ f.ids pat ↔ i ∈ f.allIds ∧ pat.matches i = true) ∧ (f.ids pat).Sublist f.allIds := by
+  constructor
+  · intro i; simp [Factory.ids, List.mem_filter]
+  · exact List.filter_sublist
+
+variable [LT α] [LE α] [DecidableLT α] [DecidableLE α] [FOps α]
+
+/-- **factory_prototypes_untouched**: nothing but `add` changes the factory — not `get`, not any assignment to a
+    parameter of an object it handed out, not cloning such an object: the prototypes are never handed out themselves.
+    So after any such history `get(id)` hands out what it handed out before. -/
+theorem factory_prototypes_untouched (st : FState α) (ops : List (FOp α))
+    (h : ∀ op ∈ ops, ∀ obj d, op ≠ FOp.add obj d) :
+    (frun st ops).factory = st.factory ∧ ∀ id, (frun st ops).factory.get id = st.factory.get id := by
+  have key : (frun st ops).factory = st.factory := by
+    induction ops generalizing st with
+    | nil => rfl
+    | cons op ops ih =>
+      have h1 : (fstep st op).1.factory = st.factory := by
+        cases op with
+        | add obj d => exact absurd rfl (h _ List.mem_cons_self obj d)
+        | get id => simp only [fstep]; split <;> rfl
+        | setp v name o => simp only [fstep]; split <;> rfl
+        | cloneVar v => simp only [fstep]; split <;> rfl
+        | _ => rfl
+      simp only [frun]
+      rw [ih (fstep st op).1 (fun o ho => h o (List.mem_cons_of_mem _ ho)), h1]
+  exact ⟨key, fun id => by rw [key]⟩
+
+/-- an assignment to a parameter of one got object changes no other got object -/
+theorem got_objects_independent (st : FState α) (v : Nat) (name : String) (op : Op α) (i : Nat) (hi : i ≠ v) :
+    (fstep st (.setp v name op)).1.vars[i]? = st.vars[i]? := by
+  simp only [fstep]
+  split
+  · rfl
+  · exact List.getElem?_set_ne (Ne.symm hi)
+
+end
+
 /-! ### non-vacuity -/
 
 private def exI : Storage XF := .irange ⟨5, 0, 10, .le, .lt⟩
@@ -362,6 +788,94 @@ private def exC : Config XF := ((Config.empty : Config XF).register "a" (.irange
 example :
     (exC.register "a" .mono).2 = true ∧ (exC.applyAt "b" .readInt).2.isThrow = true ∧
     (exC.applyAt "a" (.setInt 7)).2.isThrow = false ∧ (exC.applyAt "a" (.setInt 11)).2.isThrow = true := by
+  decide +kernel
+
+
+/-! ### non-vacuity of the gap-closing theorems -/
+
+private def exE : Storage XF := .enum ⟨"green", ["red", "green", "blue", "dark blue"]⟩
+
+/-- an enumeration: a string that is not one of its names (a prefix, another case, a blank more) is rejected and the stored
+    name survives; reads, a write+read and accepted assignments afterwards see names of the enumeration only -/
+example :
+    (step exE (.setString "gree")).1 = exE ∧ (step exE (.setString "gree")).2.isThrow = true ∧
+    (step exE (.setString "Green")).1 = exE ∧ (step exE (.setString "dark  blue")).2.isThrow = true ∧
+    run exE [.setString "pink", .readEnum, .writeRead, .setString "dark blue", .setString "", .readEnum] =
+      .enum ⟨"dark blue", ["red", "green", "blue", "dark blue"]⟩ := by
+  decide +kernel
+
+private def exBig : Storage XF := .irange ⟨2147483648, 0, 4294967296, .le, .le⟩
+private def resInt? : XRes XF → Option Int
+  | .res (.int v) => some v
+  | _ => none
+private def resFloat? : XRes XF → Option XF
+  | .res (.float v) => some v
+  | _ => none
+
+/-- the hypothesis of `readI32_exact` is necessary: an integer parameter whose domain exceeds `int` holds 2^31 and
+    `value<int>()` answers -2^31 without throwing (replayed on the real code by a corpus line); a negative value read as
+    `uint64_t` wraps; 16777217 read as `float` is 16777216; 1e10 read as `int` from a scalar parameter is -2^31 -/
+example :
+    exBig.InDomain ∧ (xstep exBig .readI32).2.isThrow = false ∧
+    resInt? (xstep exBig .readI32).2 = some (-2147483648) ∧
+    resInt? (xstep (Storage.irange ⟨-1, -5, 5, .le, .le⟩ : Storage XF) .readU64).2 = some 18446744073709551615 ∧
+    resFloat? (xstep (Storage.irange ⟨16777217, 0, 100000000, .le, .le⟩ : Storage XF) .readF32).2 =
+      some (XF.ofI64 16777216) ∧
+    XF.toI32 (XF.ofI64 10000000000) = -2147483648 ∧ XF.toI32 (.fin true 3 (-1)) = -1 := by
+  decide +kernel
+
+/-- the converting constructors: `make_integer("p", 0.5, LE, 1.7, LE, 10.9)` is the parameter `0 <= 1 <= 10`;
+    `make_integer("p", 0.5, LT, 0.9, LE, 10)` does not exist (the converted default 0 is not above the converted
+    bound 0) although 0.5 < 0.9 -/
+example :
+    Except.toOption' (xmake (.integer (.f (.fin false 1 (-1))) .le (.f (.fin false 17 (-3))) .le
+      (.f (.fin false 87 (-3))) : XSpec XF)) = some (.irange ⟨2, 0, 10, .le, .le⟩) ∧
+    Except.toOption' (xmake (.integer (.f (.fin false 1 (-1))) .lt (.f (.fin false 7 (-3))) .le (.i 10) : XSpec XF)) =
+      none := by
+  decide +kernel
+
+/-- `operator==`: -0 and +0 are equal values with different bits; another name is another parameter -/
+example :
+    paramEq "p" (.frange ⟨.fin true 0 (-1074), .fin true 0 (-1074), exOne, .le, .le⟩ : Storage XF)
+      "p" (.frange ⟨.fin false 0 (-1074), .fin false 0 (-1074), exOne, .le, .le⟩) = true ∧
+    paramEq "p" exI "q" exI = false ∧ paramEq "p" exI "p" exI = true ∧
+    paramEq "p" exI "p" (.irange ⟨5, 0, 10, .le, .le⟩) = false := by
+  decide +kernel
+
+private def exC2 : Config XF :=
+  (((Config.empty : Config XF).register "solver::epsilon" (.irange ⟨5, 0, 10, .le, .le⟩)).1.register "ab" .mono).1
+
+/-- exact names: prefixes, the empty name and extensions of registered names are unknown, and can be registered -/
+example :
+    exC2.has "solver::eps" = false ∧ exC2.has "" = false ∧ exC2.has "a" = false ∧ exC2.has "abc" = false ∧
+    exC2.has "ab" = true ∧ (exC2.applyAt "solver::epsilo" .readInt).2.isThrow = true ∧
+    (exC2.register "solver" .mono).2 = false ∧ (exC2.register "" .mono).2 = false ∧
+    (exC2.register "solver::epsilon" .mono).2 = true := by
+  decide +kernel
+
+private def exObj (id : String) (v : Int) : Tree XF := .node id [("p", .irange ⟨v, 0, 10, .le, .le⟩)] []
+private def exFac : Factory XF := ((Factory.empty.add (exObj "gd" 3) "gradient descent").1.add (exObj "cgd-n" 4) "cgd").1
+
+/-- a factory: duplicate ids, unknown ids, `ids(regex)`, descriptions; a got object is modified, a second `get` hands out
+    the default again -/
+example :
+    exFac.WF ∧ exFac.allIds = ["gd", "cgd-n"] ∧ (exFac.add (exObj "gd" 9) "again").2 = false ∧
+    (exFac.add (exObj "gd" 9) "again").1.allIds = ["gd", "cgd-n"] ∧ exFac.has "g" = false ∧ exFac.has "gd" = true ∧
+    (exFac.get "gdx").isNone = true ∧ exFac.description "gd" = "gradient descent" ∧ exFac.description "cgd" = "" ∧
+    exFac.ids .any = ["gd", "cgd-n"] ∧ exFac.ids (.pre "cgd") = ["cgd-n"] ∧ exFac.ids (.suf "d") = ["gd"] ∧
+    exFac.ids (.sub "gd") = ["gd", "cgd-n"] ∧ exFac.ids (.lit "cgd") = [] ∧
+    (let st := frun ⟨exFac, []⟩ [.get "gd", .setp 0 "p" (.setInt 7), .get "gd"]
+     st.vars.map (·.params) = [(exObj "gd" 7).params, (exObj "gd" 3).params] ∧
+       (st.factory.get "gd").map (·.params) = some (exObj "gd" 3).params) := by
+  refine ⟨?_, by decide +kernel⟩
+  intro p hp
+  simp only [exFac, Factory.add, Factory.empty, Factory.has, Factory.find?, exObj, Tree.typeId] at hp
+  simp at hp
+  rcases hp with rfl | rfl <;> rfl
+
+/-- the tables are not empty: 100+ distinct typed reads, narrowing ones among them -/
+example : ParamReads.reads.length > 100 ∧ (ParamReads.reads.filter (fun r => r.kind == .i32)).length ≥ 5 ∧
+    (ParamReads.reads.filter (fun r => r.kind == .u64)).length ≥ 4 ∧ allParams.length > 300 := by
   decide +kernel
 
 end NanoVerif.Param
